@@ -576,6 +576,8 @@ impl Database {
                 to_merge.insert(table);
             }
 
+            #[cfg(feature = "verif-hooks")]
+            egglog_concurrency::verif::probe("merge_all_strata");
             let mut changed = false;
             let mut tables_merging = DenseIdMap::<
                 TableId,
@@ -611,6 +613,8 @@ impl Database {
                 }
                 let db = self.read_only_view();
                 changed |= if do_parallel {
+                    #[cfg(feature = "verif-hooks")]
+                    egglog_concurrency::verif::probe("merge_all_strata_parallel");
                     parallel::map_dense_id_map_mut(&mut tables_merging, |_, (info, buffers)| {
                         let mut es = ExecutionState::new(db, mem::take(buffers));
                         info.as_mut().unwrap().table.merge(&mut es).added || es.changed
